@@ -208,6 +208,21 @@ func cStackWrites(c *ctx, d *cdrv) error {
 				cops = append(cops, "CA")
 				continue
 			}
+			if j > 2 && c.rng.Intn(8) == 0 {
+				// compact_all with reflog expiry (the C configuration has a time and a minimum update index)
+				var tm, mn uint64
+				if c.rng.Intn(2) == 0 {
+					tm = uint64(998 + c.rng.Intn(14))
+				}
+				if c.rng.Intn(2) == 0 {
+					mn = uint64(1 + c.rng.Intn(int(ui)))
+				}
+				hops = append(hops, fmt.Sprintf("CE:%d:0:%d", tm, mn))
+				cops = append(cops, fmt.Sprintf("CE~%d~%d", tm, mn))
+				// entries that expired can no longer be deleted "as existing"; keep the bookkeeping simple
+				liveLogs = nil
+				continue
+			}
 			var o hop
 			o.kind = "A"
 			pick := map[string]bool{}
